@@ -266,6 +266,7 @@ var Solvers = []SolverCfg{
 }
 
 type SolveOpts struct {
+	Cross    bool // thorough tier: cross-check unsat verdicts with a second solver and the interval prover with SMT
 	Timeout  int // seconds per solver
 	Scratch  string
 	Workers  int
@@ -306,6 +307,7 @@ func runSolver(cfg SolverCfg, file string, timeout int) (verdict, out string, se
 func (e *Engine) Solve(o *Oblig, opts SolveOpts, stats *SolveStats, prep *sync.Mutex) {
 	prep.Lock()
 	var script string
+	byInterval := false
 	func() {
 		defer func() { e.C.localDistinct = nil }()
 		defer func() {
@@ -366,7 +368,11 @@ func (e *Engine) Solve(o *Oblig, opts SolveOpts, stats *SolveStats, prep *sync.M
 			}
 			if e.linearDischarge(assumps, goal) {
 				o.Verdict, o.Solver = "unsat", "dgv-interval"
-				return
+				if !opts.Cross {
+					return
+				}
+				// thorough tier: the in-house decision is cross-checked by an SMT solver below
+				byInterval = true
 			}
 		}
 		hdr := fmt.Sprintf("; obligation %s\n; function %s\n; position %s\n; path %s\n", o.ID, o.Fn, o.Pos, o.Path)
@@ -383,7 +389,7 @@ func (e *Engine) Solve(o *Oblig, opts SolveOpts, stats *SolveStats, prep *sync.M
 		script = e.C.EmitSMT(assumps, goal, hdr, true, gv)
 	}()
 	prep.Unlock()
-	if o.Verdict == "unsat" && strings.HasPrefix(o.Solver, "dgv-") {
+	if o.Verdict == "unsat" && strings.HasPrefix(o.Solver, "dgv-") && !byInterval {
 		stats.mu.Lock()
 		stats.Queries++
 		stats.PerSolver[o.Solver]++
@@ -408,7 +414,49 @@ func (e *Engine) Solve(o *Oblig, opts SolveOpts, stats *SolveStats, prep *sync.M
 		timeout = sp.Timeout
 	}
 	v, out, secs := runSolver(Solvers[0], file, timeout)
+	if byInterval {
+		// cross-check of the interval prover: only a model refutes it; unknown leaves its decision standing
+		stats.mu.Lock()
+		stats.Queries++
+		stats.Secs[Solvers[0].Name] += secs
+		if v == "sat" {
+			stats.PerSolver["disagreement"]++
+		} else {
+			stats.PerSolver["dgv-interval"]++
+			if v == "unsat" {
+				stats.PerSolver["cross-checked"]++
+			}
+		}
+		stats.mu.Unlock()
+		if v == "sat" {
+			o.Verdict, o.Solver, o.Output = "sat", "dgv-interval vs "+Solvers[0].Name, "DISAGREEMENT: dgv-interval proved the goal, "+Solvers[0].Name+" found a model\n"+out
+			o.Model = parseValues(out, o.modelTerms)
+			return
+		}
+		o.Verdict, o.Solver, o.Secs = "unsat", "dgv-interval", secs
+		os.Remove(file)
+		o.SMTFile = ""
+		return
+	}
 	o.Solver, o.Secs = Solvers[0].Name, secs
+	if v == "unsat" && opts.Cross && !o.Cover {
+		// thorough tier: a second solver must not contradict the first
+		v2, out2, secs2 := runSolver(Solvers[1], file, timeout)
+		o.Secs += secs2
+		stats.mu.Lock()
+		stats.Secs[Solvers[1].Name] += secs2
+		if v2 == "unsat" {
+			stats.PerSolver["cross-checked"]++
+		}
+		stats.mu.Unlock()
+		if v2 == "sat" {
+			v, out = "sat", "DISAGREEMENT: "+Solvers[0].Name+" says unsat, "+Solvers[1].Name+" found a model\n"+out2
+			o.Solver = Solvers[0].Name + " vs " + Solvers[1].Name
+			stats.mu.Lock()
+			stats.PerSolver["disagreement"]++
+			stats.mu.Unlock()
+		}
+	}
 	if v == "unknown" {
 		// race the other two
 		type res struct {
